@@ -53,8 +53,8 @@ def project(snap):
 def gen_cases(tier):
     cases = []
     for c in rt.layer_values(tier, max_len=2):
-        if c["tags"]["dtype"] in ("text", "url", "person") and c["tags"]["n_values"] == 2:
-            continue            # the string-like dtypes share one code path; pairs are enumerated for string and None
+        if tier == "quick" and c["tags"]["dtype"] in ("text", "url", "person") and c["tags"]["n_values"] == 2:
+            continue            # quick: the string-like dtypes share one code path; pairs are enumerated for string and None
         c["fmts"], c["entries"], c["sub"] = FORMATS, ["string"], ["on"]
         cases.append(c)
     for c in rt.layer_attrs(tier):
@@ -63,13 +63,13 @@ def gen_cases(tier):
         c["fmts"], c["entries"], c["sub"] = FORMATS, ["string", "file"], ["on"]
         cases.append(c)
     for c in rt.layer_trees("quick" if tier == "quick" else "thorough"):
-        if c["tags"]["sections"] > (3 if tier == "quick" else 4):
+        if c["tags"]["sections"] > (3 if tier == "quick" else 5):
             continue
         c["fmts"], c["entries"], c["sub"] = FORMATS, ["string", "file", "odml.save"], ["on", "off", "custom"]
         cases.append(c)
     # section types: mapped by default, unmapped, custom-mapped; and lists of documents
     types = ["analysis", "t", "mytype", "analysis/psth"]
-    for ndocs in (1, 2, 3):
+    for ndocs in ((1, 2, 3) if tier == "quick" else (1, 2, 3, 4, 5)):
         specs = []
         for i in range(ndocs):
             secs = [rt.S("s%d" % j, types[(i + j) % 4], props=[rt.P("p", [i, j], "int"), rt.P("q", ["v%d" % i], "string")],
@@ -207,7 +207,7 @@ def check(tier):
         layers[c["layer"]] = layers.get(c["layer"], 0) + 1
     for k, v in sorted(layers.items()):
         run.layer(k, documents=v)
-    run.bounds = {"value_list_length": 2, "max_sections": 3 if tier == "quick" else 4, "documents_per_export": 3,
+    run.bounds = {"value_list_length": 2, "max_sections": 3 if tier == "quick" else 5, "documents_per_export": 3,
                   "serialisations": FORMATS}
     par.run_cases(run, "checks.c10", cases, nchunks=par.JOBS * 16)
     return run.finish(reproduce=lambda f: replay(f))
